@@ -56,6 +56,26 @@ fn peer_params(remote_addr: IpAddr, export_policy: Option<(table::Disposition, V
     }
 }
 
+/// The same the way the configuration file yields it: a `[[neighbors]]` entry (TOML text) through the
+/// real deserializer and the real `PeerParams::try_from(&config::Neighbor)`, which reads the peer's
+/// export policy from `apply-policy.config` (`pass` cannot be said there: None).
+fn peer_params_cfg(addr: IpAddr, ep: &Option<(table::Disposition, Vec<String>)>) -> Option<Option<PeerParams>> {
+    let mut s = format!("[config]\nneighbor-address = \"{}\"\npeer-as = 65002\n[transport.config]\npassive-mode = true\n", addr);
+    if let Some((d, names)) = ep {
+        s += "[apply-policy.config]\n";
+        s += &format!("export-policy-list = [{}]\n", names.iter().map(|n| format!("\"{}\"", n)).collect::<Vec<_>>().join(", "));
+        match d {
+            table::Disposition::Reject => s += "default-export-policy = \"reject-route\"\n",
+            // an absent default means accept
+            table::Disposition::Accept if names.len() % 2 == 1 => s += "default-export-policy = \"accept-route\"\n",
+            table::Disposition::Accept => {}
+            table::Disposition::Pass => return Some(None),
+        }
+    }
+    let n: rustybgp_config::generate::Neighbor = toml::from_str(&s).ok()?;
+    Some(Some(PeerParams::try_from(&n).ok()?))
+}
+
 fn err_of(e: &Error) -> Term {
     let k = match e {
         Error::InvalidArgument(_) | Error::EmptyArgument => "invalid",
@@ -532,7 +552,12 @@ async fn exec_dop(w: &World, t: &Term) -> Option<Term> {
                 }
                 Some((disp_of(&s[0])?, names_of(&s[1])?))
             };
-            dres(&w.global.write().await.add_peer(peer_params(addr, ep), None))
+            // through the configuration-file conversion whenever the default action can be said there
+            let params = match peer_params_cfg(addr, &ep)? {
+                Some(p) => p,
+                None => peer_params(addr, ep),
+            };
+            dres(&w.global.write().await.add_peer(params, None))
         }
         ("peer-del", 1) => {
             let addr = addr_of(&a[0])?;
@@ -597,7 +622,8 @@ async fn run_dcase(t: &Term) -> String {
     g.asn = 65001;
     g.router_id = Ipv4Addr::new(1, 0, 0, 1);
     for a in &addrs {
-        if g.add_peer(peer_params(*a, None), None).is_err() {
+        let Some(Some(p)) = peer_params_cfg(*a, &None) else { return bad };
+        if g.add_peer(p, None).is_err() {
             return bad;
         }
     }
